@@ -480,6 +480,10 @@ func TestVerifC18Child(t *testing.T) {
 		c18Backlog(rep, spec.Run, spec.Seed, spec.Variant, spec.Bulk)
 	case "regain":
 		c18Regain(rep, spec.Run, spec.Seed, spec.Variant)
+	case "reserved":
+		c18Reserved(rep, spec.Run, spec.Seed, spec.Variant)
+	case "defaults":
+		c18Defaults(rep, spec.Run, spec.Seed, spec.Variant)
 	default:
 		t.Fatalf("unknown unit %q", spec.Unit)
 	}
